@@ -1,6 +1,7 @@
 #!/bin/sh
 # tools/run_seeded.sh [ids...] - regression of detection power: apply every kept breaking change under seeded/ to /repo, run the quick check of its
-# property (plus the checks named in meta.json's caught_by), expect exit 1 with a VIOLATION line, restore /repo.  Results -> selftest/seeded_results.json
+# property (FULL=1: the complete quick run, plus the second check named in meta.json's caught_by; default: SFSIM_REGRESSION=1 = same seeds in the same
+# order but stop at the first violating batch and minimise for 3 s only), expect exit 1 with a VIOLATION line, restore /repo.  Results -> selftest/seeded_results.json
 cd "$(dirname "$0")/.." || exit 2
 test -z "$(git -C /repo status --short)" || { echo "/repo not clean"; exit 2; }
 mkdir -p selftest
@@ -18,10 +19,11 @@ ids=[]
 for c in m['caught_by']:
     mm=re.match(r'(C\d+)',c)
     if mm and mm.group(1) not in ids: ids.append(mm.group(1))
-print(' '.join(ids[:2]))")
+print(' '.join(ids[:2] if '$FULL' == '1' else ids[:1]))")
   res=""
   for P in $checks; do
-    ./check $P --tier quick > /tmp/seeded_$P.log 2>&1; rc=$?
+    if [ "$FULL" = "1" ]; then ./check $P --tier quick > /tmp/seeded_$P.log 2>&1; rc=$?
+    else SFSIM_REGRESSION=1 ./check $P --tier quick > /tmp/seeded_$P.log 2>&1; rc=$?; fi
     v=$(grep -c '^VIOLATION' /tmp/seeded_$P.log)
     first=$(grep -m1 '^  oracle=' /tmp/seeded_$P.log | sed -E 's/^  oracle=([^ ]+) observable=(.*) detail=.*/\1\/\2/' | tr ' ' '_' | cut -c1-90)
     res="$res $P:exit$rc:violations$v:$first"
